@@ -254,8 +254,13 @@ fn run_session(kit: &Kit, rt: &tokio::runtime::Runtime, case: &Value, n: usize, 
         // (c) cache hit on an entry stored by an attempt that was rejected afterwards although
         //     the verifier reported that certificate as validated
         let tainted_hit = hits.iter().any(|h| entries.get(h).map(|e| e.validated_event && e.attempt_unsound).unwrap_or(false));
+        // (d) after a cache hit, the fetch for the cached previous hash was answered with a
+        //     certificate carrying ANOTHER hash than the one asked for
+        let jump = walk.iter().enumerate().any(|(i, (asked, idx))| {
+            i > 0 && *idx != 0 && certs[*idx - 1].hash != *asked && hits_at.iter().any(|(_, fetched)| *fetched <= i)
+        });
         for (h, _) in &stores {
-            entries.insert(h.clone(), EntryInfo { validated_event: validated.contains(h), attempt_unsound: !ok || following || forged_hit || tainted_hit });
+            entries.insert(h.clone(), EntryInfo { validated_event: validated.contains(h), attempt_unsound: !ok || following || forged_hit || tainted_hit || jump });
         }
         stats.attempts += 1;
         if ok {
@@ -279,6 +284,7 @@ fn run_session(kit: &Kit, rt: &tokio::runtime::Runtime, case: &Value, n: usize, 
             "dev_following": ok && following,
             "dev_cache_forged": ok && forged_hit,
             "dev_cache_tainted": ok && tainted_hit,
+            "dev_cache_jump": ok && jump,
             "cache_before_boundary": before_boundary,
         }));
     }
